@@ -200,6 +200,15 @@ def run(ctx):
         reaches = any(ALLOC.match(cg.name(n)) for n in p)
         ctx.ob("C11.R1p", "effects.cpp:preallocate-allocates", reaches,
                "sanity of the graph: preallocate() (first use of the thread context) does reach an allocator when no edge is cut")
+    # ... and for every queue type: preallocate() is the documented way to take the one-time allocation off the first log call, so
+    # it must reach the creation of the thread context (the target of the cold edge that the hot roots are allowed to cross)
+    ctx.floor("C11.R1q", "preallocate roots (queue types)", len(pre), 4)
+    for r in sorted(pre):
+        p = cg.reach([r], None)
+        ok = any(re.search(r"detail::get_local_thread_context<", cg.name(n)) for n in p) and any(ALLOC.match(cg.name(n)) for n in p)
+        ctx.ob("C11.R1q", "effects.cpp:%s:creates-thread-context" % cg.name(r).replace("void qv::", "")[:60], ok,
+               "preallocate() reaches get_local_thread_context (and through it the allocation of the context and its queue): after it "
+               "the first log call of the thread has nothing left to allocate")
     # every named cold edge is exercised (a vanished cold edge means the table is stale)
     seen = set()
     for r in hot:
